@@ -476,11 +476,13 @@ func (x *side) doCall(p, kind string) {
 			e["outfrom"] = sess.Out().From.String()
 		case "ping", "unmarshal", "iqunk":
 			x.doRequest(p, kind, e)
-			return
 		default:
 			panic("unknown call kind " + kind)
 		}
 	}()
+	if ak == "req" && e["panic"] == nil {
+		return // logged by doRequest
+	}
 	if kind != "updaddr" {
 		e["class"] = errClass(err)
 	}
@@ -680,15 +682,27 @@ func negotiate(sc Scenario, c, s *side) {
 		select {
 		case <-cdone:
 			cdone = nil
-			if c.nerr != nil && !hung {
-				hung = true
-				s.conn.CloseIn()
+			if c.nerr != nil && !hung && sdone != nil {
+				quiesce() // the other side may fail by itself (it was told so)
+				select {
+				case <-sdone:
+				default:
+					hung = true
+					s.lg.Add(vt.Ev{"ev": "fault", "kind": "hangup"})
+					s.conn.CloseIn()
+				}
 			}
 		case <-sdone:
 			sdone = nil
-			if s.nerr != nil && !hung {
-				hung = true
-				c.conn.CloseIn()
+			if s.nerr != nil && !hung && cdone != nil {
+				quiesce()
+				select {
+				case <-cdone:
+				default:
+					hung = true
+					c.lg.Add(vt.Ev{"ev": "fault", "kind": "hangup"})
+					c.conn.CloseIn()
+				}
 			}
 		case <-time.After(10 * time.Second):
 			// a stalled handshake is C04's business: end it
@@ -1070,7 +1084,7 @@ func resetOf(x *side, evs []vt.Ev, mode string) vt.Ev {
 	}
 	reqs := append([]string{}, x.reqs...)
 	auto := append([]string{}, x.autoclose...)
-	return vt.Ev{"role": x.role, "progs": pl, "reqs": reqs, "autoclose": auto, "mode": mode}
+	return vt.Ev{"role": x.role, "progs": pl, "reqs": reqs, "autoclose": auto, "mode": mode, "initbits": []string{"Secure"}}
 }
 
 func main() {
